@@ -1,7 +1,8 @@
 /-
 Model of service discovery:
   * store/etcdv3/service.go:ServiceStatusStream — watch `/services/` *then* get, keep a set of
-    endpoints, apply PUT/DELETE events, emit the set on every change;
+    endpoints, apply the PUT/DELETE events of every watch response, emit the set once per response
+    in which some event changed it;
   * discovery/helium/helium.go — the single dispatch loop
         for { select { case addrs := <-ch: latest = addrs
                        case id := <-unsubChan: cancel; delete; close(ch_id)
@@ -33,11 +34,18 @@ def applyEv (eps : List Addr) : WEv → List Addr × Bool
 
 def applyAll (eps : List Addr) (evs : List WEv) : List Addr := evs.foldl (fun e ev => (applyEv e ev).1) eps
 
-/-- the snapshots the stream emits: the initial one, then one per *changing* event -/
-def emitted (eps : List Addr) : List WEv → List (List Addr)
+/-- one watch response carries a *list* of events (e.g. all writes of one etcd transaction): the
+set is updated by every event and `changed` is the OR over them
+(`c := eps.Add/Remove(..); if c { changed = true }`) -/
+def applyResp (eps : List Addr) (resp : List WEv) : List Addr × Bool :=
+  resp.foldl (fun acc ev => let r := applyEv acc.1 ev; (r.1, acc.2 || r.2)) (eps, false)
+
+/-- the snapshots the stream sends after the initial one: one per watch response in which at
+least one event changed the set (`if changed { ch <- eps.ToSlice() }`) -/
+def emitted (eps : List Addr) : List (List WEv) → List (List Addr)
   | [] => []
-  | ev :: rest =>
-    let r := applyEv eps ev
+  | resp :: rest =>
+    let r := applyResp eps resp
     if r.2 then r.1 :: emitted r.1 rest else emitted r.1 rest
 
 /-! ### the dispatch loop -/
